@@ -17,7 +17,7 @@ std::string prop_generate(Tape & t, int size) {
     go.allow_big = size >= 50;
     go.allow_gaps = true;
     go.sample_budget = 24000;
-    Program p = gen_general(t, size, go);
+    Program p = t.chance(1, 8) ? gen_bigblock(t, size) : gen_general(t, size, go);
     mj::Value c = mj::Value::object();
     size_t mode = t.weighted({6, 2, 3});
     static const char * M[] = {"closed", "unclosed", "cut"};
